@@ -272,7 +272,11 @@ OnMessage(s, e, m, c) ==
           IN IF e = "A" THEN Enc(s2, MInit(e)) ELSE s2
      ELSE Close(s, e)
   ELSE
-  CASE m.t = "INIT" ->
+  \* session parameters are negotiated once: a further SESS_INIT is a message out of place
+  \* (deviation second_init_accepted: the code before its repair negotiated again, the passive end answering
+  \* with a second SESS_INIT of its own)
+  CASE m.t = "INIT" /\ s.inSess /\ "second_init_accepted" \notin Dev -> Enc(s, MReject(TypeCode(m), 3))
+    [] m.t = "INIT" ->
          LET s1 == IF e = "P" THEN Enc(s, MInit(e)) ELSE s
          IN [s1 EXCEPT !.inSess = TRUE, !.segSize = Min(SegInit[e], m.mru),
                        !.pq = (@ \/ "busy_wait_abstracted" \in Dev)]
